@@ -51,6 +51,9 @@ def demo_block(readme, agent_wt, wt, seed_dir):
         block = [l[4:] if l.startswith("    ") else l for l in lines[i:j + 1]]
     text = "\n".join(block)
     text = text.replace(agent_wt, wt)
+    # demo files named without a directory are in the seed directory
+    for fn in os.listdir(seed_dir):
+        text = re.sub(r"(\bcp\s+(?:-r\s+)?)" + re.escape(fn) + r"(\s)", lambda m: m.group(1) + os.path.join(seed_dir, fn) + m.group(2), text)
     # drop clean-up lines: the worktree is thrown away anyway, and a failing demo must keep its exit status
     text = "\n".join(l for l in text.split("\n") if not re.match(r"^\s*\(?(rm|git -C .* checkout)\b", l))
     return "set -o pipefail\n" + text
